@@ -1,7 +1,7 @@
 # C08 — reading is invariant under equivalent re-encoding and ignores unknown members.
 import common, schema, histgen, refcbor, cborgen
 THEOREMS = ["C08_refines", "C08_invariance", "C08_encodings_wellformed", "C08_member_order", "C08_unknown_members", "C08_wide_keys_clamped", "C08_no_key_at_the_ends", "C08_wide_keys_ignored", "C08_canonical_is_an_encoding", "C08_file_invariance", "C08_exporter_output_in_family", "C08_nonvacuous"]
-EXTRA_PROPERTY_FILES = ("Properties_format",)   # obligations over the regenerated Gen_format.v (translator/format.py)
+EXTRA_PROPERTY_FILES = ("Properties_format", "Properties_decoder")   # obligations over the regenerated Gen_format.v (translator/format.py)
 NAMES = ["FilePreamble", "BlockParameters", "StorageParameters", "CollectionParameters", "QueryResponseSignature", "RR", "MalformedMessageData",
          "BlockStatistics", "QueryResponse", "AddressEventCount", "MalformedMessage", "ClassType", "Question", "ResponseProcessingData",
          "QueryResponseExtended", "BlockPreamble", "IndexListItem", "Timestamp", "StorageHints"]
